@@ -144,13 +144,15 @@ MANIFEST_TEXT = {
     "C13": _mt("Seeded search over histories of connect/Hello/close by several simulated users, RequestName/ReleaseName, AddMatch/RemoveMatch, outstanding calls and messages around the "
                "size limit, with a random subset of limits configured to 1..5; white-box invariant after every bus step (registered, per-user, incomplete connections, names and "
                "rules per connection within limits) and protocol oracle (the overflowing request earns LimitsExceeded and changes nothing, requests below the limit are unaffected, "
-               "freed capacity is reusable, an oversize message disconnects only its sender).",
+               "freed capacity is reusable, an oversize message disconnects only its sender). In about 30% of the plans the configuration is reloaded once (ReloadConfig with a second "
+               "file: limits raised, lowered, removed or newly set): refusals must follow the limits in force, what is already held stays (the counting invariant of a lowered limit is switched off).",
                "DESIGN.md section 4 C13", "deterministic simulation, seeded history search, invariants checked at every step + model-based oracle"),
     "C06": _mt("Seeded search over configurations x histories: random allow/deny rule lists over every documented attribute (type, interface, member, path, error, destination, "
                "destination prefix, sender, broadcast, requested reply, eavesdrop, fd count, own / own_prefix, user / group) in default, user, group, at_console and mandatory contexts, "
                "rendered to the configuration file the real daemon loads; several simulated users (the sandbox itself has only root); destinations owning several names or only "
                "queued; unicast, broadcast, requested and unrequested replies, eavesdroppers. An independent evaluator written from doc/dbus-daemon.1.xml.in decides, per recipient, "
-               "every send / receive / own / connect decision; observed deliveries, AccessDenied errors and RequestName outcomes must agree. Points the manual leaves open are pinned "
+               "every send / receive / own / connect decision; observed deliveries, AccessDenied errors and RequestName outcomes must agree. In a quarter of the plans the configuration is reloaded once with a second random policy (as a point event): every later decision, for the "
+               "connections that already exist and for new ones, must follow the new rules. Points the manual leaves open are pinned "
                "to the reference behaviour and listed in DESIGN.md.",
                "DESIGN.md section 4 C06, appendix E", "deterministic simulation over generated configurations and histories, reference-evaluator oracle"),
     "C09": _mt("Seeded search over histories under a requested-replies-only policy: calls with and without NO_REPLY_EXPECTED, genuine / duplicate / wrong-serial / third-party replies, "
